@@ -103,3 +103,176 @@ Definition min_dim_keep (x : tn fx) (d : Z) : option (option (tn fx * tn Z)) :=
   | _, Some None => Some None
   | _, _ => None
   end.
+
+(* ======================================================================================================
+   Part 2: the operations of `optimal_completion`'s post-processing (duplicate propagation, sort, neighbour
+   de-duplication, counts, scatter into padded targets).  Modelled on the ranks the function uses.
+   ====================================================================================================== *)
+
+(* `x == y`, `x > y` on two long tensors, with broadcasting (torch.eq / torch.gt): OpsC01.cmp_i Z.eqb / Z.gtb *)
+
+(* Tensor.transpose(dim0, dim1) on a 3-D tensor: "Returns a tensor that is a transposed version of input.  The given
+   dimensions dim0 and dim1 are swapped."  out[ix with components a and b swapped] = x[ix].  None: another rank,
+   a dimension outside [-3, 3) *)
+Definition swap3 {A} (a b : nat) (t : A * A * A) : A * A * A :=
+  let '(x0, x1, x2) := t in
+  let get k := match k with 0 => x0 | 1 => x1 | _ => x2 end in
+  let put k := if k =? a then get b else if k =? b then get a else get k in
+  (put 0, put 1, put 2).
+
+Definition transpose3 {X} (d : X) (x : tn X) (d0 d1 : Z) : option (tn X) :=
+  match shp x, wrap_dim 3 d0, wrap_dim 3 d1 with
+  | [s0; s1; s2], Some a, Some b =>
+      let '(t0, t1, t2) := swap3 a b (s0, s1, s2) in
+      Some (mkTn [t0; t1; t2]
+              (tab3 t0 t1 t2 (fun i j k => let '(i0, i1, i2) := swap3 a b (i, j, k) in nth ((i0 * s1 + i1) * s2 + i2) (dat x) d)))
+  | _, _, _ => None
+  end.
+
+(* Tensor.any(dim) on a boolean tensor: "For each row of input in the given dimension dim, returns True if any element
+   in the row evaluate to True and False otherwise." - dim is squeezed.  None: dim outside [-rank, rank) *)
+Definition any_dim (x : tn bool) (d : Z) : option (tn bool) :=
+  match wrap_dim (rank x) d with
+  | Some k =>
+      let sh := shp x in
+      Some (mkTn (drop_dim sh k)
+              (tab2 (outer sh k) (inner sh k) (fun o i => existsb (fun b => b) (fibre false (extent sh k) (inner sh k) (dat x) o i))))
+  | None => None
+  end.
+
+(* Tensor.sum(dim) on a boolean tensor: "Returns the sum of each row of the input tensor in the given dimension dim";
+   a bool input is summed as integers (the result is torch.long): the number of True entries.  dim is squeezed *)
+Definition count_row (l : list bool) : Z := Z.of_nat (List.length (filter (fun b => b) l)).
+
+Definition sum_dim_b (x : tn bool) (d : Z) : option (tn Z) :=
+  match wrap_dim (rank x) d with
+  | Some k =>
+      let sh := shp x in
+      Some (mkTn (drop_dim sh k)
+              (tab2 (outer sh k) (inner sh k) (fun o i => count_row (fibre false (extent sh k) (inner sh k) (dat x) o i))))
+  | None => None
+  end.
+
+(* Tensor.sort(dim) on a 2-D long tensor along its LAST dimension: "Sorts the elements of the input tensor along a given
+   dimension in ascending order by value. ... A namedtuple of (values, indices) is returned, where the values are the
+   sorted values and indices are the indices of the elements in the original input tensor."  ASSUMPTION: equal elements
+   keep their original order (what torch promises only with stable=True; optimal_completion's result does not depend on
+   it: after the duplicate propagation equal tokens carry equal mask bits).  The index list of one row is the stable
+   insertion sort PV.C03.Model.sort_idx uses (restated here: MiniTorch does not import the models) *)
+Fixpoint insert_by (key : nat -> Z) (i : nat) (l : list nat) : list nat :=
+  match l with
+  | [] => [i]
+  | j :: t => if (key i <=? key j)%Z then i :: l else j :: insert_by key i t
+  end.
+
+Definition sort_row_idx (r : list Z) : list nat :=
+  fold_right (insert_by (fun i => nth i r 0%Z)) [] (seq 0 (List.length r)).
+
+Definition row_of {X} (x : tn X) (w n : nat) : list X := firstn w (skipn (n * w) (dat x)).
+
+Definition sort_last2 (x : tn Z) (d : Z) : option (tn Z * tn Z) :=
+  match shp x, wrap_dim 2 d with
+  | [n; w], Some 1 =>
+      Some (mkTn [n; w] (flat_map (fun i => let r := row_of x w i in map (fun s => nth s r 0%Z) (sort_row_idx r)) (seq 0 n)),
+            mkTn [n; w] (flat_map (fun i => map Z.of_nat (sort_row_idx (row_of x w i))) (seq 0 n)))
+  | _, _ => None
+  end.
+
+(* Tensor.expand( *sizes) / Tensor.expand_as(other) of a 2-D tensor to 3 sizes: "Returns a new view of the self tensor
+   with singleton dimensions expanded to a larger size.  Passing -1 as the size for a dimension means not changing the
+   size of that dimension.  Tensor can be also expanded to a larger number of dimensions, and the new ones will be
+   appended at the front."  Modelled: (a, b) -> (h, a', b') with a' / b' = -1 or the present size, or the present size
+   being 1.  None otherwise *)
+Definition expand_lead2 {X} (d : X) (x : tn X) (h s1 s2 : Z) : option (tn X) :=
+  match shp x with
+  | [a; b] =>
+      match expand_size a s1, expand_size b s2 with
+      | Some a', Some b' =>
+          if (h <? 0)%Z then None
+          else Some (mkTn [Z.to_nat h; a'; b']
+                       (tab3 (Z.to_nat h) a' b' (fun _ i j => nth (bidx a i * b + bidx b j) (dat x) d)))
+      | _, _ => None
+      end
+  | _ => None
+  end.
+
+(* Tensor.gather(2, index) on 3-D tensors of EQUAL shape: "out[i][j][k] = input[i][j][index[i][j][k]]  # if dim == 2";
+   every index within [0, input.size(2)) (torch raises otherwise: None) *)
+Definition gather_last3 {X} (d : X) (x : tn X) (idx : tn Z) : option (tn X) :=
+  match shp x, shp idx with
+  | [a; b; c], [a'; b'; c'] =>
+      if (a =? a') && (b =? b') && (c =? c') && forallb (fun j => (0 <=? j)%Z && (j <? Z.of_nat c)%Z) (dat idx)
+      then Some (mkTn [a; b; c]
+                   (tab3 a b c (fun i j k => nth ((i * b + j) * c + Z.to_nat (nth ((i * b + j) * c + k) (dat idx) 0%Z)) (dat x) d)))
+      else None
+  | _, _ => None
+  end.
+
+(* x[..., a:b] / x[:, a:b]: the slice a:b (no step) of the LAST dimension, all of the leading ones.  [rows] = product of
+   the leading sizes.  None: 0-d *)
+Definition slice_last {X} (d : X) (x : tn X) (a b : option Z) : option (tn X) :=
+  match rev (shp x) with
+  | w :: lead_rev =>
+      let lo := slice_bound w 0 a in
+      let hi := slice_bound w w b in
+      let rows := numel (rev lead_rev) in
+      Some (mkTn (rev lead_rev ++ [hi - lo])
+              (tab2 rows (hi - lo) (fun r j => nth (r * w + lo + j) (dat x) d)))
+  | [] => None
+  end.
+
+(* torch.cat([x, y], dim) for the LAST dimension: "Concatenates the given sequence of tensors in the given dimension.
+   All tensors must ... have the same shape (except in the concatenating dimension)".  None: ranks / leading sizes
+   differ, 0-d *)
+Definition cat_last {X} (d : X) (x y : tn X) : option (tn X) :=
+  match rev (shp x), rev (shp y) with
+  | wx :: lx, wy :: ly =>
+      if nats_eqb lx ly
+      then let rows := numel (rev lx) in
+           Some (mkTn (rev lx ++ [wx + wy])
+                   (tab2 rows (wx + wy) (fun r j => if j <? wx then nth (r * wx + j) (dat x) d else nth (r * wy + (j - wx)) (dat y) d)))
+      else None
+  | _, _ => None
+  end.
+
+(* torch.masked_select(input, mask) with a mask of input's shape: "Returns a new 1-D tensor which indexes the input
+   tensor according to the boolean mask" - the selected elements in row-major order.  None: shapes differ *)
+Fixpoint mselect {X} (m : list bool) (x : list X) : list X :=
+  match m, x with
+  | b :: m', a :: x' => if b then a :: mselect m' x' else mselect m' x'
+  | _, _ => []
+  end.
+
+Definition masked_select {X} (x : tn X) (mask : tn bool) : option (tn X) :=
+  if nats_eqb (shp x) (shp mask)
+  then let r := mselect (dat mask) (dat x) in Some (mkTn [List.length r] r)
+  else None.
+
+(* Tensor.masked_scatter_(mask, source) with a mask of self's shape: "Copies elements from source into self tensor at
+   positions where the mask is True.  Elements from source are copied into self starting at position 0 of source and
+   continuing in order one-by-one for each occurrence of mask being True. ... The source should have at least as many
+   elements as the number of ones in mask."  The updated self.  outer None: shapes differ; inner None: source too
+   short (RuntimeError) *)
+Fixpoint mscatter {X} (m : list bool) (dst src : list X) : option (list X) :=
+  match m, dst with
+  | b :: m', t :: dst' =>
+      if b then match src with
+                | s :: src' => option_map (cons s) (mscatter m' dst' src')
+                | [] => None
+                end
+      else option_map (cons t) (mscatter m' dst' src)
+  | _, _ => Some dst
+  end.
+
+Definition masked_scatter {X} (x : tn X) (mask : tn bool) (src : tn X) : option (option (tn X)) :=
+  if nats_eqb (shp x) (shp mask)
+  then Some (option_map (mkTn (shp x)) (mscatter (dat mask) (dat x) (dat src)))
+  else None.
+
+(* Tensor.max() without arguments: "Returns the maximum value of all elements in the input tensor." (a 0-d tensor);
+   None: no element (RuntimeError "max(): Expected reduction dim to be specified for input.numel() == 0") *)
+Definition max_all (x : tn Z) : option Z :=
+  match dat x with
+  | [] => None
+  | a :: r => Some (fold_left Z.max r a)
+  end.
